@@ -39,8 +39,11 @@ class RuleCtx:
 
     def violation(self, key, msg, loc=None, **details):
         """key: stable identification (function / construct / via), no line numbers."""
+        k = "%s|%s" % (self.rid, key)
+        if any(v["key"] == k and v["msg"] == msg for v in self.viol):
+            return
         self.obligations += 1
-        self.viol.append({"rule": self.rid, "key": "%s|%s" % (self.rid, key), "msg": msg, "loc": loc, "details": details})
+        self.viol.append({"rule": self.rid, "key": k, "msg": msg, "loc": loc, "details": details})
 
     def note(self, s):
         self.notes.append(s)
@@ -49,8 +52,9 @@ class RuleCtx:
         """fewer instances than confirmed by reading => analysis broken"""
         self.floor_n = n
         if len(self.instances) < n:
-            raise Broken("%s: found %d %s, confirmed floor is %d (a vanished anchor or an extractor change): %s"
-                         % (self.rid, len(self.instances), what, n, self.instances[:10]))
+            # deferred: a violation found elsewhere in this run is reported first
+            self.ctx.broken.append("%s: found %d %s, confirmed floor is %d (a vanished anchor or an extractor change): %s"
+                                   % (self.rid, len(self.instances), what, n, [str(i) for i in self.instances][:10]))
 
 
 class Ctx:
@@ -64,6 +68,7 @@ class Ctx:
         self.trusted = []
         self.analysed = {}
         self.explanation = ""
+        self.broken = []
 
     def rule(self, rid, text):
         r = RuleCtx(self, rid, text)
@@ -143,6 +148,11 @@ class Ctx:
             print(l)
         for k in stale:
             print("note: listed finding not reproduced on this tree (fixed or moved): %s" % k)
+        for b in self.broken:
+            print("analysis-broken: %s" % b)
+        if not new_v and self.broken:
+            print("ANALYSIS-BROKEN property=%s: %s" % (self.pid, self.broken[0]))
+            return 2
         if new_v:
             rd = os.path.join(X.BUILD, "replay")
             os.makedirs(rd, exist_ok=True)
